@@ -15,6 +15,8 @@ from concurrent.futures import ThreadPoolExecutor
 from lib import common as C
 from lib import xhrun
 
+from . import contract
+
 XHDIR = os.path.join(C.VERIF, "xh")
 MOD = "harness_eval"
 
@@ -432,6 +434,7 @@ def main(pid):
     cov = ev.coverage
     C.ensure_venv()
     conds = conditions(tier)
+    cfut = contract.start(pid)
     with ThreadPoolExecutor(max_workers=1) as ex:  # the concrete validation runs beside the solver conditions
         fut = ex.submit(run_validation)
         results = xhrun.run_conditions(pid, conds)
@@ -440,6 +443,7 @@ def main(pid):
     cov["stub_validations_run"] = sum(v.get(k, 0) for v in val.values()
                                       for k in ("seq_engine_calls", "real_engine_calls", "oracle_cases", "sabotages"))
     code = xhrun.summarize(pid, results, ev)
+    code = contract.finish(pid, cfut, ev, code)
     if verrs:
         # on a changed tree the concrete sweep may well see the change first; the verdict stays with the solver:
         # a VIOLATION needs a solver model that replays, so validation problems can only turn 0 into 3.
